@@ -41,14 +41,15 @@ SetOf(s) == {s[i] : i \in DOMAIN s}
 RECURSIVE Sum0(_, _)
 Sum0(f, S) == IF S = {} THEN 0 ELSE LET x == CHOOSE y \in S : TRUE IN f[x] + Sum0(f, S \ {x})
 Tr(x) == <<x[1], x[2], x[3]>>
-Pkt(x) == [src |-> x[1], dst |-> x[2], seq |-> x[3], kind |-> x[4], amt |-> x[5], call |-> x[6], fee |-> x[7], mut |-> 0]
-Unknown(t) == [src |-> t[1], dst |-> t[2], seq |-> t[3], kind |-> "?", amt |-> 0, call |-> "?", fee |-> 0, mut |-> 9]
+Pkt(x) == [src |-> x[1], dst |-> x[2], seq |-> x[3], kind |-> x[4], amt |-> x[5], call |-> x[6], fee |-> x[7], mut |-> 0, cb |-> x[8]]
+Unknown(t) == [src |-> t[1], dst |-> t[2], seq |-> t[3], kind |-> "?", amt |-> 0, call |-> "?", fee |-> 0, mut |-> 9, cb |-> "?"]
 PacketOf(t, S) == IF \E p \in S : T(p) = t THEN CHOOSE p \in S : T(p) = t ELSE Unknown(t)
 
 (* --- binding of the recorded real state of line k ------------------------- *)
 St(k, c) == Trace[k].st[c]
 SentAt(k) == IF Trace[k].ev = "Reset" THEN {}
-             ELSE IF Trace[k].ev = "Send" /\ Trace[k].res = "ok" /\ Len(Trace[k].pkt) = 7 THEN sent \cup {Pkt(Trace[k].pkt)}
+             ELSE IF Trace[k].ev = "Send" /\ Trace[k].res = "ok" /\ Len(Trace[k].pkt) = 8 THEN sent \cup {Pkt(Trace[k].pkt)}
+             ELSE IF Trace[k].ev = "SendTwo" /\ Trace[k].res = "ok" THEN sent \cup {Pkt(x) : x \in SetOf(Trace[k].pkts)}
              ELSE sent
 
 B_commits(k, c, S) == { IF x[4] = "P" THEN PacketOf(Tr(x), S) ELSE Unknown(Tr(x)) : x \in SetOf(St(k, c).commits) }
@@ -126,20 +127,26 @@ C03_SupplyFixed(k) == \A c \in Chains : St(k, c).supply = Funds /\ \A d \in Chai
 (* C04 *)
 C04_SendStep(k) == (ln(k).ev = "Send" /\ ln(k).res = "ok") =>
    LET c == ActChain(k)  p == Pkt(ln(k).pkt) IN
-   /\ Len(ln(k).pkt) = 7
+   /\ Len(ln(k).pkt) = 8
    /\ p.src = c /\ p.dst \in Chains \ {c}
    /\ p.seq = seq[c][p.dst] /\ seq'[c][p.dst] = p.seq + 1
    /\ \A d \in Chains \ {c, p.dst} : seq'[c][d] = seq[c][d]
    /\ commits'[c] = commits[c] \cup {p}            \* exactly one commitment: the hash of the emitted bytes ("P")
    /\ ~(\E q \in commits[c] : T(q) = T(p))
-C04_FailedSendNoChange(k) == (ln(k).ev = "Send" /\ ln(k).res # "ok") => Unchanged(k)
+(* two sends in one transaction to two destinations: the next sequence of each, exactly two commitments *)
+C04_SendTwoStep(k) == (ln(k).ev = "SendTwo" /\ ln(k).res = "ok") =>
+   LET c == ActChain(k)  P == {Pkt(x) : x \in SetOf(ln(k).pkts)}  d1 == ln(k).args.dst  d2 == ln(k).args.dst2 IN
+   /\ Cardinality(P) = 2 /\ d1 # d2 /\ \A p \in P : p.src = c /\ p.dst \in {d1, d2} /\ p.seq = seq[c][p.dst] /\ seq'[c][p.dst] = p.seq + 1
+   /\ {p.dst : p \in P} = {d1, d2}
+   /\ commits'[c] = commits[c] \cup P
+C04_FailedSendNoChange(k) == (ln(k).ev \in {"Send", "SendTwo"} /\ ln(k).res # "ok") => Unchanged(k)
 (* C04: a failed send locks nothing.  Origin tokens held by the endpoint are exactly what outTokens records, and  *)
 (* (in these behaviours wrapped tokens are only minted and burned) no wrapped token is ever held by the endpoint,  *)
 (* packet or agent contract                                                                                         *)
 C04_NoStrayEscrow(k) == \A c \in Chains :
    /\ St(k, c).endp = Sum0([d \in Chains \ {c} |-> St(k, c).out[d]], Chains \ {c})
    /\ \A d \in Chains \ {c} : St(k, c).wlock[d] = 0
-C04_SeqOnlyBySend(k) == \A c \in Chains : (seq'[c] # seq[c] \/ cseq'[c] # cseq[c]) => (ln(k).ev = "Send" /\ ln(k).res = "ok" /\ ActChain(k) = c)
+C04_SeqOnlyBySend(k) == \A c \in Chains : (seq'[c] # seq[c] \/ cseq'[c] # cseq[c]) => (ln(k).ev \in {"Send", "SendTwo"} /\ ln(k).res = "ok" /\ ActChain(k) = c)
 
 (* C05 *)
 C05_AckWritten(k) == (ln(k).ev = "Recv" /\ ln(k).res = "ok" /\ TripleOf(k)[2] = ActChain(k)) =>
@@ -194,6 +201,7 @@ Judge(k) ==
      /\ Report(k, "C02.RejectNoChange", C02_RejectNoChange(k))
      /\ Report(k, "C03.ErrorAckLeavesNothing", C03_ErrorAckLeavesNothing(k))
      /\ Report(k, "C04.SendStep", C04_SendStep(k))
+     /\ Report(k, "C04.SendTwoStep", C04_SendTwoStep(k))
      /\ Report(k, "C04.FailedSendNoChange", C04_FailedSendNoChange(k))
      /\ Report(k, "C04.SeqOnlyBySend", C04_SeqOnlyBySend(k))
      /\ Report(k, "C05.AckWritten", C05_AckWritten(k))
@@ -214,8 +222,9 @@ Base(k) == PacketOf(<<ln(k).args.src, ln(k).args.dst, ln(k).args.seq>>, sent)
 C_Step(k) ==
   LET a == ln(k).args  c == ln(k).chain IN
   CASE ln(k).ev = "Send" ->
-          /\ SendEff(c, a.dst, a.kind, a.amt, a.call, a.fee)
+          /\ SendEffCb(c, a.dst, a.kind, a.amt, a.call, a.fee, IF "cb" \in DOMAIN a THEN a.cb ELSE "none")
           /\ ln(k).res = Res(SendOK(c, a.dst, a.kind, a.amt, a.fee))
+    [] ln(k).ev = "SendTwo" -> SendTwoEff(c, a.dst, a.dst2, a.call) /\ ln(k).res = Res(SendTwoOK(c, a.dst, a.dst2))
     [] ln(k).ev = "Commit" -> CommitEff(c)
     [] ln(k).ev = "UpdateClient" ->
           /\ UpdateEff(c, a.counter, a.height, a.signer)
